@@ -606,6 +606,7 @@ class FnLower:
         self.saved_stack = []     # for rethrow: names of saved exc_kind variables
         self.fulltemps = []       # temporaries with destructors in the current full-expression
         self.loop_stack = []
+        self.elem_out = None
 
     # -------------------------------------------------------------- helpers
     def w(self, s):
@@ -1277,7 +1278,14 @@ class FnLower:
         if t.tag:
             return 'TAGVALUE'
         tv = self.newtmp()
-        if t.is_struct() or (t.base == 'Elem' and t.ptrs == 0):
+        if t.base == 'Elem' and t.ptrs == 0:
+            # a temporary element object (e.g. the result of the caller's generator): r9b
+            self.rule('r9b')
+            self.pre.append('%s;' % t.decl(tv))
+            self.pre.append('env_fresh_object(&%s); env_track_temp(&%s);' % (tv, tv))
+            self.construct_into('&' + tv, sub)
+            self.fulltemps.append('env_elem_destroy(&%s); env_untrack_temp();' % tv)
+        elif t.is_struct():
             self.pre.append('%s;' % t.decl(tv))
             self.construct_into('&' + tv, sub)
         else:
@@ -1450,6 +1458,12 @@ class FnLower:
         return out
 
     def emit_call(self, cname, args, rett, ret_is_ref, maythrow, discard, glvalue_result=False):
+        if getattr(self, 'elem_out', None) is not None and rett is not None and rett.base == 'Elem' and rett.ptrs == 0 and cname.startswith('env_'):
+            cname = cname + '_out'
+            self.need_env(cname)
+            args = list(args) + [self.elem_out]
+            self.elem_out = None
+            rett = None
         call = '%s(%s)' % (cname, ', '.join(args))
         if rett is None or rett.c() == 'void':
             self.pre.append('%s;' % call)
@@ -1531,6 +1545,14 @@ class FnLower:
                 return
             raise Unsupported('initialiser list with elements')
         # any other prvalue of class type (a call returning by value)
+        t = self.ct(e['type'])
+        if t.base == 'Elem' and t.ptrs == 0:
+            # an element returned by value is constructed by the callee in the destination (out-parameter)
+            self.elem_out = dest
+            v = self.ex(e)
+            if self.elem_out is not None:
+                raise Unsupported('element prvalue from %s' % e.get('kind'))
+            return
         v = self.ex(e)
         self.pre.append('%s = %s;' % (self.deref(dest), v))
 
@@ -1751,6 +1773,12 @@ class FnLower:
                 self.pre.append('env_elem_destroy(%s);' % bself)
                 return ''
             raise Unsupported('explicit destructor of %s' % bt.c())
+        if name == 'operator=' and bt.base == 'struct Alloc' and len(args) == 1:
+            # allocator copy/move assignment: the allocator's state is its identity
+            self.rule('r15')
+            v = self.ex(args[0])
+            self.pre.append('%s = %s;' % (self.deref(bself), v))
+            return self.deref(bself)
         if name == 'base' and not args and (bt.base == 'Elem' or (bt.ptrs and bt.base == 'Elem')):
             # std::move_iterator<T*>::base()
             self.rule('r13')
@@ -1836,9 +1864,10 @@ class FnLower:
                 a.append(self.ex(arg)); abbr.append(pt.abbr())
         opn = OPNAMES.get(name, re.sub(r'\W+', '_', name))
         fn = 'env_%s__%s' % (opn, '_'.join(abbr))
-        self.need_env(fn)
-        self.rule('r15')
         rett = self.em.tm.ctype(ret)
+        if not (self.elem_out is not None and rett.base == 'Elem' and rett.ptrs == 0):
+            self.need_env(fn)
+        self.rule('r15')
         mt = not self.is_nothrow_type(fnt)
         return self.emit_call(fn, a, rett, rett.is_ref, mt, discard)
 
